@@ -9,6 +9,7 @@ package eval
 import (
 	"errors"
 	"fmt"
+	"slices"
 	"sort"
 
 	appsv1 "k8s.io/api/apps/v1"
@@ -755,7 +756,9 @@ func namespaceNameFromSelector(nsSelector *metav1.LabelSelector) string {
 	}
 	if len(nsSelector.MatchExpressions) == 1 {
 		req := nsSelector.MatchExpressions[0]
-		if req.Key == common.K8sNsNameLabelKey && req.Operator == metav1.LabelSelectorOpIn && len(req.Values) == 1 {
+		// a repeated value does not add a namespace (the map key of the representative peer treats values as a set too)
+		if req.Key == common.K8sNsNameLabelKey && req.Operator == metav1.LabelSelectorOpIn && len(req.Values) > 0 &&
+			!slices.ContainsFunc(req.Values, func(v string) bool { return v != req.Values[0] }) {
 			return req.Values[0]
 		}
 	}
